@@ -103,6 +103,9 @@ def call_cases(tier):
 # ------------------------------------------------------------- part B -------
 DEFAULT_TERMS = [('int', 0), ('int', 7), ('str', ''), ('str', 'dflt'), ('none',), ('bool', True), ('float', 1.5),
                  ('tuple', []), ('tuple', [('int', 1)])]
+FALSY_TERMS = [('none',), ('tuple', []), ('str', ''), ('int', 0), ('list', []), ('dict', []), ('float', 0.0), ('bool', False),
+               ('bytes', b''), ('set', []), ('frozenset', [])]
+BUILTIN_FACTORY = {'list': list, 'dict': dict, 'set': set}
 FACTORY_TERMS = [('list', []), ('dict', []), ('list', [('int', 1)]), ('set', []), ('dict', [(('str', 'k'), ('int', 1))])]
 NAMES = ['a', 'b', 'count', 'name', 'items', 'ctx', 'fn', 'value', 'cls', 'kwargs', 'long_field_name', 'x1']
 
@@ -123,8 +126,14 @@ def make_spec(r, kind, reserved):
             f['factory'] = r.choice(FACTORY_TERMS)
             f['takes_self'] = kind == 'attrs' and r.random() < 0.3
         base = f['default'] or f['factory']
-        if base is not None and r.random() < 0.5:
+        # the factory is the built-in type itself (list, dict, set) rather than a lambda for most empty containers
+        f['builtin_factory'] = f['factory'] in (('list', []), ('dict', []), ('set', [])) and not f['takes_self'] and r.random() < 0.7
+        y = r.random()
+        if base is not None and y < 0.4:
             f['value'] = base
+        elif base is not None and y < 0.65:
+            # falsy like the default, but not equal to it
+            f['value'] = r.choice(FALSY_TERMS)
         else:
             f['value'] = valgen.rand_val(r, r.randint(1, 5), set())
         spec.append(f)
@@ -164,7 +173,7 @@ def build_class(kind, spec):
                 kw['default'] = valgen.build(f['default'])[0]
             elif f['factory'] is not None:
                 ft = f['factory']
-                kw['default_factory'] = (lambda ft=ft: valgen.build(ft)[0])
+                kw['default_factory'] = BUILTIN_FACTORY[ft[0]] if f.get('builtin_factory') else (lambda ft=ft: valgen.build(ft)[0])
             flds.append((f['name'], object, dataclasses.field(**kw)))
         pseudo = _counter[0] % 3 == 0
         if pseudo:
@@ -190,6 +199,8 @@ def build_class(kind, spec):
                     kw['default'] = attr.Factory(lambda self, dep=f['self_dep']: [getattr(self, dep)], takes_self=True)
                 elif f['takes_self']:
                     kw['default'] = attr.Factory(lambda self, ft=ft: valgen.build(ft)[0], takes_self=True)
+                elif f.get('builtin_factory'):
+                    kw['default'] = attr.Factory(BUILTIN_FACTORY[ft[0]])
                 else:
                     kw['default'] = attr.Factory(lambda ft=ft: valgen.build(ft)[0])
             attrs[f['name']] = attr.ib(**kw)
